@@ -1,4 +1,5 @@
 import UmProofs.NodesExample
+import UmProofs.NodesHist
 /-!
 # C14 — CLUSTER NODES and CLUSTER SLOTS advertise each slot once and agree with routing
 
@@ -186,6 +187,83 @@ theorem C14_self_iff_exec (cfg : RouteCfg) (rt : Option Nat) (vw : View) (hname 
         exact sendRemoteDirectly_ne_exec _ _ _ _ _ _ hn
       · rw [if_neg har] at hn
         cases hn
+
+/-! ## long-lived proxies: install histories on the same `MetaManager` -/
+
+/-- **what the two commands read after an accepted `set_meta`** (`Hist.setMeta` = C02's `setMeta` + the view):
+the view is the one of the last accepted metadata alone, the set of task keys is the one of a fresh install
+of that metadata (C02 `setMeta_last_only`), and the replies are generated from that view and the phase map of
+those tasks — nothing else of the history survives. -/
+theorem C14_history_last_only (h0 h1 : Hist) (m : Um.E2E.EMeta) (hs : h0.setMeta m = (h1, .ok)) (v : Version) :
+    h1.vw = viewOf h0.vw.me m ∧
+    (h1.p.tasks.map (·.key)).Perm ((Um.E2E.installFresh h0.p.cfg m).tasks.map (·.key)) ∧
+    h1.nodes v = genClusterNodes (viewOf h0.vw.me m) (statesOf h1.p) v ∧
+    h1.slots = genClusterSlots (viewOf h0.vw.me m) (statesOf h1.p) := by
+  unfold Hist.setMeta at hs
+  cases hsm : Um.E2E.setMeta h0.p m with
+  | mk p' r =>
+    rw [hsm] at hs
+    cases r with
+    | ok =>
+      simp only [Prod.mk.injEq, and_true] at hs
+      subst hs
+      exact ⟨rfl, (Um.E2E.setMeta_last_only h0.p m p' hsm).2.2.2.2.2.1, rfl, rfl⟩
+    | oldEpoch => simp at hs
+    | notMyMeta => simp at hs
+
+/-- **the task map after an accepted `set_meta`** (`update_from_old_task_map`): every tagged local range of the
+new metadata has a task — the old one with its phase when its `MigrationTaskMeta` is unchanged, a fresh one in
+`PreCheck` otherwise —, the phase map has no other key, and a range list that no other tagged local range
+shares is looked up to the phase of its own task. -/
+theorem C14_install_history (p0 p : Um.E2E.ProxyState) (m : Um.E2E.EMeta) (me : Addr)
+    (h : Um.E2E.setMeta p0 m = (p, .ok)) :
+    StatesOfLocalTasks (viewOf me m) (statesOf p) ∧
+    ∀ n ∈ m.loc, ∀ s ∈ n.2, Um.E2E.SlotRange.tagged s = true →
+      (∃ t ∈ p.tasks, t.key = ⟨m.cluster, s⟩ ∧
+        (t ∈ p0.tasks ∨ (t.state = .preCheck ∧ ∀ o ∈ p0.tasks, o.key ≠ t.key))) ∧
+      ((∀ n' ∈ m.loc, ∀ s' ∈ n'.2, Um.E2E.SlotRange.tagged s' = true → s'.ranges = s.ranges → s' = s) →
+        ∃ t ∈ p.tasks, t.key = ⟨m.cluster, s⟩ ∧ statesOf p s.ranges = some (stateOf t.state) ∧
+          (t ∈ p0.tasks ∨ (t.state = .preCheck ∧ ∀ o ∈ p0.tasks, o.key ≠ t.key))) :=
+  ⟨statesOfLocalTasks_installed h me,
+    fun _ hn _ hs htag => ⟨installed_has_task h hn hs htag, fun hu => statesOf_installed h hn hs htag hu⟩⟩
+
+/-- **a migration that an install newly exposes is advertised at its source** ("before the switch handshake"),
+whatever was installed before: on a long-lived proxy that accepts metadata `m` with the partition property, a
+tagged local range `s` (migrating: the proxy is the source; importing: it is the destination) that had no task
+before this install and whose range list no other tagged local range shares is found in `PreCheck`, so every
+slot of that migration is listed exactly once in NODES and in SLOTS, at the holder `o` of the migrating range. -/
+theorem C14_new_migration_at_source (p0 p : Um.E2E.ProxyState) (m : Um.E2E.EMeta) (me : Addr) (v : Version)
+    (h : Um.E2E.setMeta p0 m = (p, .ok))
+    (hw : WfView (viewOf me m)) (hc : ColonView (viewOf me m)) (hp : Partition (viewOf me m))
+    (n : String × List Um.Broker.SlotRange) (hn : n ∈ m.loc) (s : Um.Broker.SlotRange) (hs : s ∈ n.2)
+    (htag : Um.E2E.SlotRange.tagged s = true)
+    (hnew : ∀ o ∈ p0.tasks, o.key ≠ ⟨m.cluster, s⟩)
+    (huniq : ∀ n' ∈ m.loc, ∀ s' ∈ n'.2, Um.E2E.SlotRange.tagged s' = true → s'.ranges = s.ranges → s' = s)
+    (sl : Nat) (hsl : sl < SLOT_NUM) (o : Triple) (ho : o ∈ triples (viewOf me m)) (hown : owns sl o = true)
+    (hmig : o.2.1.tag = .migrating) (hrl : o.2.1.ranges = s.ranges) :
+    statesOf p s.ranges = some .preCheck ∧
+    ∃ ns es, parseNodes (genClusterNodes (viewOf me m) (statesOf p) v) = some ns ∧
+      parseSlots (genClusterSlots (viewOf me m) (statesOf p)) = some es ∧
+      nodesOwners ns sl = [bs o.1] ∧ slotsOwners es sl = [bs o.1] := by
+  obtain ⟨t, ht, hkey, hst, hkept⟩ := statesOf_installed h hn hs htag huniq
+  have hpre : statesOf p s.ranges = some .preCheck := by
+    rcases hkept with hin | ⟨hpc, _⟩
+    · exact absurd hkey (hnew t hin)
+    · rw [hst, hpc]; rfl
+  refine ⟨hpre, ?_⟩
+  obtain ⟨ns, es, hns, hes, hno, hso, _⟩ := C14_parse_gen (viewOf me m) (statesOf p) v hw hc
+  have hadv := advList_migrating_pre hp (statesOf p) hsl ho hown hmig (by rw [hrl]; exact hpre)
+  exact ⟨ns, es, hns, hes, by rw [hno, hadv]; rfl, by rw [hso, hadv]; rfl⟩
+
+-- non-vacuity (`exM1`, `exM2`, `exTasks1` in UmProofs/NodesHist.lean): the destination keeps the running task of
+-- 0-999 in `PreSwitch` and gets a task in `PreCheck` for 8192-9191, which a later install lists after it
+example : taskStates (Um.E2E.updateTasks "hist" exTasks1 exM2.loc) =
+    [([(0, 999)], .preSwitch), ([(8192, 9191)], .preCheck)] := by decide +kernel
+example : getStates (taskStates (Um.E2E.updateTasks "hist" exTasks1 exM2.loc)) [(8192, 9191)] = some .preCheck ∧
+    advList (viewOf "127.0.0.1:5299" exM2) (getStates (taskStates (Um.E2E.updateTasks "hist" exTasks1 exM2.loc))) 8192 =
+      ["127.0.0.1:6002"] ∧
+    advList (viewOf "127.0.0.1:5299" exM2) (getStates (taskStates (Um.E2E.updateTasks "hist" exTasks1 exM2.loc))) 500 =
+      ["127.0.0.1:5299"] := by decide +kernel
 
 /-- before anything is installed nothing is advertised (one `myself` line without slots) -/
 theorem C14_nothing_installed (me : Addr) (states : States) (s : Nat) :
